@@ -87,8 +87,22 @@ func (qfs QUICFrames) build(cryptoData []byte, baseOffset uint64) (payload []byt
 
 	lowestOffset := math.MaxUint16
 	for _, frame := range qfs {
-		if offset, _, _ := frame.CryptoFrameInfo(); offset < lowestOffset {
+		if offset, _, cryptoOK := frame.CryptoFrameInfo(); cryptoOK && offset < lowestOffset {
 			lowestOffset = offset
+		}
+	}
+
+	// The layout describes one particular slice of the CRYPTO stream. A retransmission or
+	// PTO probe can hand in a shorter slice (only the unacknowledged part of the
+	// ClientHello): then the layout does not apply, and cutting it anyway would read past
+	// the data (panic) or pad a frame with zeros that are not part of the ClientHello.
+	// Send such a slice as a single CRYPTO frame at its true offset instead.
+	for _, frame := range qfs {
+		if offset, length, cryptoOK := frame.CryptoFrameInfo(); cryptoOK {
+			lengthOffset := offset - lowestOffset
+			if lengthOffset > len(cryptoData) || length < 0 || lengthOffset+length > len(cryptoData) {
+				return QUICFrames{QUICFrameCrypto{0, 0}}.build(cryptoData, baseOffset)
+			}
 		}
 	}
 
